@@ -6,6 +6,7 @@ import DimodProofs.CppMore
 import DimodProofs.NoUB2
 import DimodProofs.CqmInv
 import DimodProofs.NoUBExpr
+import DimodModel.CppCover
 
 /-! # C20 — no call sequence corrupts the native data structures
 
@@ -186,6 +187,21 @@ theorem python_boundary_rejects (m : Bqm) (h : m.WF) (via : Via) :
 
 /-- non-vacuity: a concrete model with a self-loop where the counts are what they should be -/
 example : ((CppM.newQm.addVar (some (.integer, 0, 5))).addVar (some (.binary, 0, 1)) |>.quad 0 0 (1/2) false).1.numInteractions = 1 := by
+  decide +kernel
+
+/-! ## Round 7: the op alphabet is checked against the header -/
+
+/-- **Every public mutator of `dimod::abc::QuadraticModelBase`** — the list `Generated.AbcMutators.mutators` is extracted
+    from dimod/include/dimod/abc.h on every run (name, number of parameters, initializer-list overload) — has an entry in
+    the coverage table `Cpp.cover` naming at least one operation, and only operations that the model driver executes
+    (`Cpp.driverOps`, enforced by `Drivers/CppMain.lean`).  A mutator added to the header, or one whose arity changes, makes
+    this theorem fail to build; the harness (`c20.py`, "op alphabet") checks on every run that harness/cpp/interp.cc calls
+    each of them with that arity under the named op and that the generator emitted the op. -/
+theorem abc_mutators_covered : ∀ s ∈ Generated.AbcMutators.mutators, Cpp.covered s = true := by
+  decide +kernel
+
+/-- the table has no entry for a function the header does not have (stale entries are reported, too) -/
+theorem abc_cover_has_no_stale_entry : ∀ e ∈ Cpp.cover, Generated.AbcMutators.mutators.contains e.1 = true := by
   decide +kernel
 
 end C20
